@@ -326,6 +326,13 @@ def _gen_plan(family, rng, pool, tier):
         knobs = {'mode': mode, 'coe': rng.random() < 0.7, 'front': front,
                  'compiled': rng.choice([None, None, None, 2]) if front in ('api', 'cli-decode') else None,
                  'filter': None}
+        if knobs['coe'] and front in ('api', 'cli-decode') and rng.random() < 0.3:
+            # a filter on top of continue-on-error (the filter pre-pass decodes headers of damaged messages too)
+            knobs['filter'] = gen_filter(rng, items)
+        if front == 'api' and rng.random() < 0.25:
+            # the decoder is not new: it has decoded another (valid) message before, in one of the modes
+            knobs['warm'] = {'how': rng.choice(['full', 'info', 'ive']),
+                             'hex': rng.choice([x for x in pool if small(x)])['hex']}
         return {'knobs': knobs, 'items': items, 'seps': seps}
 
     if family == 'c12-enum':
@@ -564,6 +571,10 @@ def exec_stream(plan):
     if front == 'api':
         quiet_std()
         dec = Decoder(compiled_template_cache_max=kn.get('compiled'))
+        if kn.get('warm'):
+            wm = kn['warm']
+            dec.process(bytes.fromhex(wm['hex']), info_only=(wm['how'] == 'info'),
+                        ignore_value_expectation=(wm['how'] == 'ive'))
         try:
             for m in generate_bufr_message(dec, stream, info_only=(kn['mode'] == 'info'),
                                            continue_on_error=kn['coe'],
@@ -1129,7 +1140,7 @@ def shape(plan, tr=None):
         per = tuple((it['cls'], _fk(it['fault']) if it.get('fault') else '', sc(s))
                     for it, s in zip(plan['items'], seps))
         return (fam, per, kn.get('mode'), kn.get('coe'), kn.get('front'), kn.get('compiled'),
-                (kn.get('filter') or {}).get('idx'))
+                (kn.get('filter') or {}).get('idx'), (kn.get('warm') or {}).get('how'))
     if fam == 'c12-enum':
         return (fam, plan['items'][0]['ref'], plan['items'][1]['cls'], kn.get('mode'), kn.get('coe'), kn.get('order'))
     if fam == 'c12-trunc':
@@ -1184,7 +1195,7 @@ def shrink_candidates(plan):
                 p['seps'][i] = ''
                 yield p
         kn = plan['knobs']
-        for k, v in (('front', 'api'), ('compiled', None), ('filter', None)):
+        for k, v in (('front', 'api'), ('compiled', None), ('filter', None), ('warm', None)):
             if kn.get(k) != v:
                 p = _copy(plan)
                 p['knobs'][k] = v
